@@ -538,6 +538,7 @@ func (t *TableEngine) evalBool(e ast.Expr, st *tstate, k func(*tstate, bool)) {
 		}
 	}
 	// opaque boolean atom
+	e = t.derefAtom(e)
 	key := t.p.Canon(e)
 	if v, ok := st.env.bools[key]; ok {
 		k(st, v)
@@ -554,7 +555,7 @@ func (t *TableEngine) evalBool(e ast.Expr, st *tstate, k func(*tstate, bool)) {
 }
 
 func (t *TableEngine) evalCompare(op token.Token, x, y ast.Expr, st *tstate, k func(*tstate, bool)) {
-	x, y = unparen(x), unparen(y)
+	x, y = t.derefAtom(unparen(x)), t.derefAtom(unparen(y))
 	p := t.p
 	// both constant
 	if cx, ok := p.ConstVal(x); ok {
@@ -917,4 +918,79 @@ func (t *TableEngine) Semantic(classify func(a *TAtom) (string, bool)) []*SemPat
 		out = append(out, sp)
 	}
 	return out
+}
+
+// derefAtom: a local that only names a field chain (ruleIface := rule.rule.Iface), in a
+// function that never writes that field, is the field chain: a named intermediate
+// is not a different condition.
+func (t *TableEngine) derefAtom(e ast.Expr) ast.Expr {
+	id, ok := e.(*ast.Ident)
+	if !ok {
+		// a method call on such a local: ruleCIDR.Contains(ip)
+		if c, isC := e.(*ast.CallExpr); isC {
+			if sel, isS := unparen(c.Fun).(*ast.SelectorExpr); isS {
+				if rid, isI := unparen(sel.X).(*ast.Ident); isI {
+					if d := t.derefAtom(rid); d != ast.Expr(rid) {
+						nsel := &ast.SelectorExpr{X: d, Sel: sel.Sel}
+						if s := t.p.Info.Selections[sel]; s != nil {
+							t.p.Info.Selections[nsel] = s
+						}
+						t.p.Info.Types[nsel] = t.p.Info.Types[sel]
+						nc := &ast.CallExpr{Fun: nsel, Lparen: c.Lparen, Args: c.Args, Ellipsis: c.Ellipsis, Rparen: c.Rparen}
+						t.p.Info.Types[nc] = t.p.Info.Types[c]
+						return nc
+					}
+				}
+			}
+		}
+		return e
+	}
+	v, isVar := t.p.ObjOf(id).(*types.Var)
+	if !isVar || v.IsField() || v.Pkg() == nil || v.Parent() == v.Pkg().Scope() {
+		return e
+	}
+	root := t.f.Root()
+	if root.Body == nil || v.Pos() < root.Body.Pos() {
+		return e
+	}
+	d, okD := t.p.SingleDef(t.f, v)
+	if !okD || d.Rhs == nil || d.Index != 0 {
+		return e
+	}
+	rhs := unparen(d.Rhs)
+	sel, isSel := rhs.(*ast.SelectorExpr)
+	if !isSel {
+		return e
+	}
+	for x := ast.Expr(sel); ; {
+		switch y := unparen(x).(type) {
+		case *ast.SelectorExpr:
+			if fv, ok := t.p.ObjOf(y.Sel).(*types.Var); !ok || !fv.IsField() || t.p.WritesField(root, t.p.FieldName(fv)) {
+				return e
+			}
+			x = y.X
+			continue
+		case *ast.Ident:
+			if _, ok := t.p.ObjOf(y).(*types.Var); !ok {
+				return e
+			}
+			return rhs
+		}
+		return e
+	}
+}
+
+// ConstName: the named constant x denotes on this path: a constant expression, or a
+// local / field that the path has set to a named constant ("attrType = stun.AttrX";
+// selecting the value first and sharing one call does not hide which value it is).
+func (e *TEnv) ConstName(p *Prog, x ast.Expr) string {
+	if c := p.constName(x); c != "" {
+		return c
+	}
+	if e != nil {
+		if ev := e.enums[p.Canon(unparen(x))]; ev != nil && ev.eq != "" {
+			return ev.eq
+		}
+	}
+	return ""
 }
